@@ -444,6 +444,12 @@ class Explorer:
             else:
                 out.count("duplicate_states")
                 ok = k not in self.bad_nodes
+            if isinstance(nv, np.ma.MaskedArray):
+                # NumPy's own functions treat masks ad hoc (np.concatenate,
+                # np.matmul, ... drop or ignore them), so a masked result is a
+                # leaf of the program space: judged, never extended
+                out.count("masked_results_not_extended")
+                ok = False
             if remaining > 1 and ok:
                 pk = _h(*keys)
                 if self.seen_pools.get(pk, 0) < remaining - 1:
